@@ -23,6 +23,31 @@ def Slice.indices (s : Slice) (n : Int) : Except Err (Int × Int × Int) :=
 /-- `len(range(a, b, c))` as a Python int (`c ≠ 0`). -/
 def rangeLenI (a b c : Int) : Int := (rangeLen a b c : Nat)
 
+/-- `self[i]` for an integer index: IndexError outside the data, negative indices count from the end. -/
+def bitAt (b : Bits) (i : Int) : Except Err Bool := getIndex b i
+
+/-- `a << k` / `a >> k` on Python ints: ValueError for a negative count. -/
+def shlE (a k : Int) : Except Err Int := if k < 0 then .error .value else .ok (a * 2 ^ k.toNat)
+def shrE (a k : Int) : Except Err Int := if k < 0 then .error .value else .ok (a / 2 ^ k.toNat)
+
+/-- `self[a:b]._getuint()` (msb0): the unsigned value of the slice; `_getuint` rejects an empty bitstring (InterpretError = ValueError). -/
+def uintOfSlice (b : Bits) (lo hi : Int) : Except Err Int :=
+  match getSlice b (some lo) (some hi) none with
+  | .error e => .error e
+  | .ok s => if s.isEmpty then .error .value else .ok (bitsToNat s : Int)
+
+/-- exception translation of a `try … except E: raise F` around a computation -/
+def remapErr {α} (f : Err → Err) : Except Err α → Except Err α
+  | .error e => .error (f e)
+  | .ok a => .ok a
+
+/-- `sum(l)` of a list of Python ints. -/
+def sumI (l : List Int) : Int := l.foldl (· + ·) 0
+
+/-- `range(a, b, c)` as the list of its values: ValueError for a zero step. -/
+def rangeE (a b c : Int) : Except Err (List Int) :=
+  if c = 0 then .error .value else .ok (rangeList a b c)
+
 /-- One effect on an object that the translator records instead of interpreting (trace mode): the source text of the
     statement with every maximal integer / Optional[int] sub-expression replaced by `_`, and the values of those
     sub-expressions in order of appearance. -/
